@@ -68,6 +68,11 @@ def run(chk, orch):
               "mono": 2, "genes_per_chr": 3}, {"data_type": "pacbio_ccs"}),
             ({"seed": 34, "n_chr": 2, "n_exp": 2, "exp_mode": "same", "novel": 2, "novel_cov": 8, "exp_polya": [0, 1],
               "genes_per_chr": 3}, {"model_strategy": "sensitive_pacbio", "data_type": "pacbio_ccs"}),
+            # a single-file and a multi-file experiment; the novel isoforms of the latter are supported by one file only
+            ({"seed": 35, "n_chr": 2, "n_exp": 2, "exp_mode": "same", "exp_bams": [1, 2], "novel": 2, "novel_cov": 6,
+              "novel_one_file": 1, "genes_per_chr": 3}, {"read_group": "file_name"}),
+            ({"seed": 36, "n_chr": 3, "n_exp": 2, "exp_mode": "split", "novel": 3, "novel_cov": 6, "pre_ids": 1,
+              "genes_per_chr": 3, "paralogs": 1}, {}),
         ]
         if rounds == 1:
             wls = fixed if not quick else fixed
@@ -79,6 +84,10 @@ def run(chk, orch):
                 spec["exp_mode"] = chk.rng.choice(["same", "split"])
                 if chk.rng.random() < 0.5:
                     spec["exp_polya"] = [chk.rng.choice([0, 1]) for _ in range(spec["n_exp"])]
+                if chk.rng.random() < 0.4:
+                    spec["exp_bams"] = [chk.rng.choice([1, 2, 3]) for _ in range(spec["n_exp"])]
+                    spec["novel_one_file"] = chk.rng.choice([0, 1])
+                    opts["read_group"] = chk.rng.choice([None, "file_name"])
                 opts["annotated"] = True
                 wls.append((spec, opts))
         plan = {}
